@@ -33,6 +33,9 @@ def execute(job):
         k = job['kind']
         if k == 'mutator':
             r = harness.run_mutator_job(prog, job)
+        elif k in ('iter', 'pair', 'deiter'):
+            import iters
+            r = {'iter': iters.run_iter_job, 'pair': iters.run_pair_job, 'deiter': iters.run_de_job}[k](prog, job)
         else:
             mod = __import__(job['module'])
             r = getattr(mod, job['func'])(prog, job)
@@ -108,6 +111,29 @@ def confirm_mutator(prop, viol):
     return status, detail
 
 
+def confirm_iter(prop, viol):
+    import replay
+    detail = {}; status = 'not_reproduced'
+    if viol.get('pre') is None: return 'not_reproduced', {'note': 'no model'}
+    for profile in ('dev', 'release'):
+        rep = replay.replay_iter(viol, profile)
+        detail.setdefault('script', rep.pop('script', None))
+        detail[profile] = rep
+        if not rep.get('pre_ok'):
+            if status == 'not_reproduced': status = 'unreachable'
+            continue
+        if rep.get('differs'): status = 'reproduced'
+    return status, detail
+
+
+def confirm(prop, viol):
+    if viol.get('kind', 'mutator') in ('iter', 'deiter'): return confirm_iter(prop, viol)
+    if viol.get('kind') == 'custom':
+        mod = __import__(viol['module'])
+        return getattr(mod, viol['confirm'])(prop, viol)
+    return confirm_mutator(prop, viol)
+
+
 def main():
     ap = argparse.ArgumentParser()
     ap.add_argument('prop')
@@ -124,7 +150,7 @@ def main():
     import props, replay
     if a.replay:
         viol = json.load(open(a.replay))
-        status, detail = confirm_mutator(prop, viol['violation']) if viol.get('kind', 'mutator') == 'mutator' else ('not_reproduced', {})
+        status, detail = confirm(prop, viol['violation'])
         print(json.dumps({'status': status, 'detail': detail}, indent=1))
         if status == 'reproduced':
             print('VIOLATION property=%s replay=%s' % (prop, a.replay)); sys.exit(1)
@@ -198,11 +224,11 @@ def main():
         groups.setdefault(key, []).append(v)
     os.makedirs(os.path.join(VERIF, 'replays'), exist_ok=True)
     for key, vs in sorted(groups.items(), key=lambda kv: str(kv[0])):
-        v = min(vs, key=lambda z: (z['N'], sum(abs(s['stamp']) for s in z['pre']['slots'])))
-        status, detail = confirm_mutator(prop, v)
+        v = min(vs, key=lambda z: (z['N'], sum(abs(s['stamp']) for s in z['pre']['slots']) if z.get('pre') else 0))
+        status, detail = confirm(prop, v)
         h = hashlib.sha1(json.dumps([key, v['args'], v['pre']], sort_keys=True).encode()).hexdigest()[:10]
         path = os.path.join(VERIF, 'replays', '%s-%s.json' % (prop, h))
-        json.dump({'property': prop, 'kind': 'mutator', 'violation': v, 'native': detail, 'status': status}, open(path, 'w'), indent=1)
+        json.dump({'property': prop, 'kind': v.get('kind', 'mutator'), 'violation': v, 'native': detail, 'status': status}, open(path, 'w'), indent=1)
         names = [n for n in v['checks'] if n.startswith(prop + '.')]
         if status == 'reproduced':
             f = known_match(known, prop, v, names)
